@@ -4,6 +4,7 @@ CONSTANTS
   SdCases <- SdSet
   HlCases <- NoCases
   BtCases <- NoCases
+  NbCases <- NoCases
   CpCases <- NoCases
   MaxOps = 2
   KeepHist = TRUE
